@@ -689,7 +689,7 @@ func init() {
 	core.Register(&core.Prop{
 		ID:    "C17",
 		Level: "model_checking",
-		Rule: "full product on real directories: {PAR2, PAR1} x 1-4 files (PAR2 names in sub-directories) x EVERY permutation of the input list (PAR2) x goroutines 1..8 x working directory {set directory, its parent, an unrelated directory} x path spelling {relative, absolute, ./x, d//x, d/../d/x} for the index path and every input, through the library (the worker chdir()s, one scenario at a time) and through the built par command (g in {1,3}); the same for a set with slice size 96 and multi-slice files x goroutines 1..16 (so that the goroutine option really partitions the shards); repeated runs; names in which a directory name is a string prefix of a sibling file name x every permutation; block counts {5,6,7,9,12} alone and right after an unrelated Create with {5,6,9,20} blocks in the same process; look-alike inputs (equal length, identical first 16 KiB, different tails) x every permutation x g {1,3}; an input listed twice - every choice of the repeated input x every position of its second mention, and for every pair of spellings of its two mentions x working directory (whatever Create does with a repeated input, the outcome - error or bytes - must equal that of the list with both mentions spelled alike). " +
+		Rule: "(later rounds added: inputs whose file ids agree in 1..5 / 8 bytes in all listing orders; an earlier Create in the same process - other inputs with another block count, or another generation of the same inputs; decoys named like the inputs and set files in the other working directories; a non-ASCII directory above the set; the first input a symbolic link) full product on real directories: {PAR2, PAR1} x 1-4 files (PAR2 names in sub-directories) x EVERY permutation of the input list (PAR2) x goroutines 1..8 x working directory {set directory, its parent, an unrelated directory} x path spelling {relative, absolute, ./x, d//x, d/../d/x} for the index path and every input, through the library (the worker chdir()s, one scenario at a time) and through the built par command (g in {1,3}); the same for a set with slice size 96 and multi-slice files x goroutines 1..16 (so that the goroutine option really partitions the shards); repeated runs; names in which a directory name is a string prefix of a sibling file name x every permutation; block counts {5,6,7,9,12} alone and right after an unrelated Create with {5,6,9,20} blocks in the same process; look-alike inputs (equal length, identical first 16 KiB, different tails) x every permutation x g {1,3}; an input listed twice - every choice of the repeated input x every position of its second mention, and for every pair of spellings of its two mentions x working directory (whatever Create does with a repeated input, the outcome - error or bytes - must equal that of the list with both mentions spelled alike). " +
 			"Oracle: the set of files written and every byte equal the baseline run (the built command in a fresh process: set directory, relative paths, listed order, g=1). non-trivial = any variation differs from the baseline configuration",
 		Assumptions: []string{"file contents, names relative to the index, slice size and block count are held fixed; everything else varies"},
 		NewCase:     func() interface{} { return &c17Case{} },
